@@ -4,6 +4,7 @@ CONSTANTS
   AN = {"x"}
   RN = {}
   MaxTypes = 3
+  Rich = TRUE
 VIEW View
 INVARIANTS EmitState
 CHECK_DEADLOCK FALSE
